@@ -163,8 +163,13 @@ class Collector:
                     sr = f'<STRUCTURE-REF ID-REF="{c["st"]["id"]}"/>'
                     if c.get("snref"):
                         sr = f'<STRUCTURE-SNREF SHORT-NAME="{c["st"]["id"]}"/>'
-                cx += (f'<CASE><SHORT-NAME>{c["name"]}</SHORT-NAME>{sr}<LOWER-LIMIT>{c["lo"]}</LOWER-LIMIT>'
-                       f'<UPPER-LIMIT>{c["hi"]}</UPPER-LIMIT></CASE>')
+                # "lo"/"hi" is the closed range of keys that select the case; it may be described by OPEN limits
+                lot = {None: "", "CLOSED": ' INTERVAL-TYPE="CLOSED"', "OPEN": ' INTERVAL-TYPE="OPEN"'}[c.get("lo_t")]
+                hit = {None: "", "CLOSED": ' INTERVAL-TYPE="CLOSED"', "OPEN": ' INTERVAL-TYPE="OPEN"'}[c.get("hi_t")]
+                lov = c["lo"] - 1 if c.get("lo_t") == "OPEN" else c["lo"]
+                hiv = c["hi"] + 1 if c.get("hi_t") == "OPEN" else c["hi"]
+                cx += (f'<CASE><SHORT-NAME>{c["name"]}</SHORT-NAME>{sr}<LOWER-LIMIT{lot}>{lov}</LOWER-LIMIT>'
+                       f'<UPPER-LIMIT{hit}>{hiv}</UPPER-LIMIT></CASE>')
             dx = ""
             if d.get("default"):
                 sr = ""
